@@ -431,8 +431,9 @@ class SolverFaultsEngine(EngineBase):
             bad = sorted(k for k, v in reply['restore_ulp'].items() if not v <= RESTORE_TOL_ULP)
             cause = 'scaled'
             ex = reply.get('restore_example') or [None, None, '', '']
-            if len(bad) == 1 and ('e-30' in ex[2] or 'e-29' in ex[2] or 'e-31' in ex[2]) and worst[1] < 1e9:
-                # the only entry that moved is an injected 1e-300: it passes through the subnormal range while scaled
+            mags = reply.get('restore_worst_magnitudes') or {}
+            if bad and all(0.0 < mags.get(b_, 1.0) < 1e-290 for b_ in bad) and worst[1] < 1e9:
+                # every entry that moved is an injected 1e-300: it passes through the subnormal range while scaled
                 cause = 'subnormal-poison'
             viol('inputs-restored', 'not-restored:%s' % (exit_path[:60] if cause == 'scaled' else cause),
                  'step %d %s: after the call (%s) the caller\'s arrays %s differ from their original values (worst: %s by %.3g ulp); '
